@@ -239,6 +239,22 @@ func everyGlobEvaluatedRule(c *Ctx) {
 					ok = false
 				}
 			}
+			// a verdict taken inside the loop (leaving it other than by exhaustion) needs the engine's answer too
+			earlyExit := ""
+			for b := range loop.Body {
+				if b == loop.Head || len(b.Instrs) == 0 {
+					continue
+				}
+				for _, s := range b.Succs {
+					if !loop.Body[s] && !p.mustPrecedeWithin(b.Instrs[len(b.Instrs)-1], call.Instr, loop) {
+						earlyExit = p.IPos(b.Instrs[len(b.Instrs)-1])
+					}
+				}
+			}
+			if ok && earlyExit != "" {
+				o.Fail("the loop over the exclusion globs is left at %s with a verdict that the glob engine was not asked for: a shortcut with its own idea of what a glob matches (a bare string prefix has no path-component boundary) drops files that pass every filter, or keeps files of a disabled path", earlyExit)
+				continue
+			}
 			if ok {
 				o.OK()
 			} else {
